@@ -430,7 +430,7 @@ int iwafcmp(const char *aptr, int asiz, const char *bptr, int bsiz) {
       return 1;
     }
   }
-  int rv = strncmp(aptr, bptr, MIN(asiz, bsiz));
+  int rv = memcmp(aptr, bptr, MIN(asiz, bsiz));
   if (!rv) {
     return (asiz - bsiz);
   } else {
